@@ -4,4 +4,1071 @@ import FsModel.PathSpec
 namespace Fs.PathLemmas
 open Fs Fs.Path Fs.PathSpec
 
+/-! ### splitOn / joinWith -/
+
+theorem splitOn_ne_nil (c : Char) (s : Str) : splitOn c s ≠ [] := by
+  induction s with
+  | nil => simp [splitOn]
+  | cons x xs ih =>
+    unfold splitOn
+    split
+    · simp
+    · split <;> simp
+
+theorem splitOn_cons_sep (c : Char) (s : Str) : splitOn c (c :: s) = [] :: splitOn c s := by
+  simp [splitOn]
+
+theorem splitOn_cons_ne (c x : Char) (s : Str) (h : x ≠ c) :
+    splitOn c (x :: s) = (x :: (splitOn c s).headD []) :: (splitOn c s).tail := by
+  rw [splitOn]
+  simp only [h, if_false]
+  have := splitOn_ne_nil c s
+  split
+  · contradiction
+  · next h' t heq => simp [heq]
+
+theorem splitOn_of_not_mem (c : Char) (a : Str) (h : c ∉ a) : splitOn c a = [a] := by
+  induction a with
+  | nil => simp [splitOn]
+  | cons x xs ih =>
+    simp only [List.mem_cons, not_or] at h
+    have hx : x ≠ c := fun e => h.1 e.symm
+    rw [splitOn_cons_ne c x xs hx]
+    simp [ih h.2]
+
+theorem splitOn_append_sep (c : Char) (a b : Str) (h : c ∉ a) :
+    splitOn c (a ++ c :: b) = a :: splitOn c b := by
+  induction a with
+  | nil => simp [splitOn]
+  | cons x xs ih =>
+    simp only [List.mem_cons, not_or] at h
+    have hx : x ≠ c := fun e => h.1 e.symm
+    rw [List.cons_append, splitOn_cons_ne c x _ hx]
+    simp [ih h.2]
+
+theorem splitOn_joinWith (c : Char) (cs : List Str) (hne : cs ≠ [])
+    (h : ∀ x ∈ cs, c ∉ x) : splitOn c (joinWith c cs) = cs := by
+  induction cs with
+  | nil => contradiction
+  | cons a rest ih =>
+    cases rest with
+    | nil => simpa [joinWith] using splitOn_of_not_mem c a (h a (by simp))
+    | cons b rest =>
+      rw [joinWith, splitOn_append_sep c a _ (h a (by simp))]
+      rw [ih (by simp) (fun x hx => h x (List.mem_cons_of_mem _ hx))]
+
+theorem joinWith_splitOn (c : Char) (s : Str) : joinWith c (splitOn c s) = s := by
+  induction s with
+  | nil => simp [splitOn, joinWith]
+  | cons x xs ih =>
+    by_cases hx : x = c
+    · subst hx
+      rw [splitOn_cons_sep]
+      have := splitOn_ne_nil x xs
+      cases hs : splitOn x xs with
+      | nil => contradiction
+      | cons h t => rw [joinWith, ← hs, ih]; simp
+    · rw [splitOn_cons_ne c x xs hx]
+      have hn := splitOn_ne_nil c xs
+      revert ih
+      generalize splitOn c xs = l at hn ⊢
+      cases l with
+      | nil => contradiction
+      | cons h t =>
+        cases t with
+        | nil => simp [joinWith]
+        | cons h2 t2 => simp [joinWith]
+
+theorem not_mem_of_mem_splitOn (c : Char) (s : Str) : ∀ x ∈ splitOn c s, c ∉ x := by
+  induction s with
+  | nil => simp [splitOn]
+  | cons y ys ih =>
+    by_cases hy : y = c
+    · subst hy
+      rw [splitOn_cons_sep]
+      intro x hx
+      simp only [List.mem_cons] at hx
+      rcases hx with rfl | hx
+      · simp
+      · exact ih x hx
+    · rw [splitOn_cons_ne c y ys hy]
+      have hn := splitOn_ne_nil c ys
+      revert ih
+      generalize splitOn c ys = l at hn ⊢
+      cases l with
+      | nil => contradiction
+      | cons h t =>
+        intro ih x hx
+        simp only [List.headD_cons, List.tail_cons, List.mem_cons] at hx
+        rcases hx with rfl | hx
+        · have := ih h (by simp)
+          simp only [List.mem_cons, not_or]
+          exact ⟨fun e => hy e.symm, this⟩
+        · exact ih x (by simp [hx])
+
+/-! ### strip / startsWith -/
+
+theorem startsWithSlash_nil : startsWithSlash [] = false := rfl
+
+theorem startsWithSlash_cons (c : Char) (s : Str) : startsWithSlash (c :: s) = decide (c = '/') := by
+  by_cases h : c = '/'
+  · subst h; rfl
+  · simp only [h, decide_false]
+    unfold startsWithSlash
+    split
+    · next heq => simp at heq; exact absurd heq.1 h
+    · rfl
+
+theorem lstripSlash_append_single (a : Str) (x : Char) :
+    lstripSlash (a ++ [x]) =
+      if lstripSlash a = [] then (if x = '/' then [] else [x]) else lstripSlash a ++ [x] := by
+  induction a with
+  | nil => simp [lstripSlash]
+  | cons y ys ih =>
+    by_cases hy : y = '/'
+    · simp [lstripSlash, hy, ih]
+    · simp [lstripSlash, hy]
+
+theorem rstripSlash_nil : rstripSlash [] = [] := rfl
+
+theorem rstripSlash_cons (x : Char) (xs : Str) :
+    rstripSlash (x :: xs) =
+      if rstripSlash xs = [] then (if x = '/' then [] else [x]) else x :: rstripSlash xs := by
+  simp only [rstripSlash, List.reverse_cons, lstripSlash_append_single, List.reverse_eq_nil_iff]
+  split
+  · split <;> simp
+  · simp
+
+theorem rstripSlash_append_single (a : Str) (x : Char) :
+    rstripSlash (a ++ [x]) = if x = '/' then rstripSlash a else a ++ [x] := by
+  simp only [rstripSlash, List.reverse_append, List.reverse_cons, List.reverse_nil, List.nil_append,
+    List.cons_append, lstripSlash]
+  split <;> simp
+
+theorem startsWithSlash_of_not_mem (s : Str) (h : '/' ∉ s) : startsWithSlash s = false := by
+  cases s with
+  | nil => rfl
+  | cons c s =>
+    rw [startsWithSlash_cons]
+    simp only [List.mem_cons, not_or] at h
+    have : c ≠ '/' := fun e => h.1 e.symm
+    simp [this]
+
+theorem startsWithSlash_append (s t : Str) (h : s ≠ []) :
+    startsWithSlash (s ++ t) = startsWithSlash s := by
+  cases s with
+  | nil => contradiction
+  | cons c s => simp [startsWithSlash_cons]
+
+theorem endsWithSlash_append (s t : Str) (h : t ≠ []) :
+    endsWithSlash (s ++ t) = endsWithSlash t := by
+  simp only [endsWithSlash, List.reverse_append]
+  exact startsWithSlash_append _ _ (by simpa using h)
+
+theorem endsWithSlash_of_not_mem (s : Str) (h : '/' ∉ s) : endsWithSlash s = false :=
+  startsWithSlash_of_not_mem _ (by simpa using h)
+
+theorem lstripSlash_of_not_starts (s : Str) (h : startsWithSlash s = false) : lstripSlash s = s := by
+  cases s with
+  | nil => rfl
+  | cons c s =>
+    rw [startsWithSlash_cons] at h
+    simp at h
+    simp [lstripSlash, h]
+
+theorem rstripSlash_of_not_ends (s : Str) (h : endsWithSlash s = false) : rstripSlash s = s := by
+  unfold rstripSlash
+  rw [lstripSlash_of_not_starts _ h]; simp
+
+theorem rstripSlash_append (a b : Str) :
+    rstripSlash (a ++ b) = if rstripSlash b = [] then rstripSlash a else a ++ rstripSlash b := by
+  induction a with
+  | nil => simp [rstripSlash_nil]
+  | cons x xs ih =>
+    rw [List.cons_append, rstripSlash_cons, ih, rstripSlash_cons]
+    by_cases hb : rstripSlash b = []
+    · simp [hb]
+    · simp [hb]
+
+/-! ### joinWith structure -/
+
+theorem joinWith_cons (c : Char) (a : Str) (rest : List Str) :
+    joinWith c (a :: rest) = if rest = [] then a else a ++ c :: joinWith c rest := by
+  cases rest <;> simp [joinWith]
+
+theorem joinWith_eq_nil_iff (c : Char) (cs : List Str) (h : ∀ x ∈ cs, x ≠ []) :
+    joinWith c cs = [] ↔ cs = [] := by
+  cases cs with
+  | nil => simp [joinWith]
+  | cons a rest =>
+    have := h a (by simp)
+    rw [joinWith_cons]
+    split <;> simp [this]
+
+theorem joinWith_append (c : Char) (as bs : List Str) (ha : as ≠ []) (hb : bs ≠ []) :
+    joinWith c (as ++ bs) = joinWith c as ++ c :: joinWith c bs := by
+  induction as with
+  | nil => contradiction
+  | cons a rest ih =>
+    cases rest with
+    | nil =>
+      cases bs with
+      | nil => contradiction
+      | cons b bs => simp [joinWith]
+    | cons a2 rest =>
+      have := ih (by simp)
+      simp only [List.cons_append] at this ⊢
+      simp [joinWith, this]
+
+/-! ### normLoop vs resolve -/
+
+theorem foldl_step_none (cs : List Str) : cs.foldl step none = none := by
+  induction cs with
+  | nil => rfl
+  | cons c cs ih => simpa [step] using ih
+
+theorem inDotDot_iff (c : Str) : inDotDot c = true ↔ (c = [] ∨ c = dot ∨ c = dotdot) := by
+  simp [inDotDot, dot, dotdot, or_assoc]
+
+theorem normLoop_eq_foldl (cs acc : List Str) :
+    normLoop cs acc = cs.foldl step (some acc.reverse) := by
+  induction cs generalizing acc with
+  | nil => simp [normLoop]
+  | cons c cs ih =>
+    rw [normLoop.eq_def, List.foldl_cons]; simp only []
+    by_cases h1 : c = []
+    · subst h1
+      simp [inDotDot, step, ih]
+    · by_cases h2 : c = dot
+      · subst h2
+        simp [inDotDot, step, ih, dot]
+      · by_cases h3 : c = dotdot
+        · subst h3
+          cases acc with
+          | nil => simp [inDotDot, step, dotdot, dot, foldl_step_none]
+          | cons x acc' =>
+            simp [inDotDot, step, dotdot, ih, dot]
+        · have : inDotDot c = false := by
+            rw [Bool.eq_false_iff]; intro h; rw [inDotDot_iff] at h; simp_all
+          simp [this, step, h1, h2, h3, ih]
+
+theorem normLoop_eq_resolve (cs : List Str) : normLoop cs [] = resolve cs := by
+  simp [normLoop_eq_foldl, resolve]
+
+/-! ### Clean lists -/
+
+theorem clean_nil : Clean [] := by intro c hc; cases hc
+
+theorem clean_cons {c : Str} {cs : List Str} : Clean (c :: cs) ↔ CleanComp c ∧ Clean cs := by
+  simp [Clean]
+
+theorem clean_append {as bs : List Str} : Clean (as ++ bs) ↔ Clean as ∧ Clean bs := by
+  simp only [Clean, List.mem_append]
+  constructor
+  · intro h; exact ⟨fun c hc => h c (Or.inl hc), fun c hc => h c (Or.inr hc)⟩
+  · rintro ⟨h1, h2⟩ c (hc | hc)
+    · exact h1 c hc
+    · exact h2 c hc
+
+theorem clean_dropLast {cs : List Str} (h : Clean cs) : Clean cs.dropLast :=
+  fun c hc => h c (List.dropLast_subset cs hc)
+
+theorem clean_take {cs : List Str} (h : Clean cs) (n : Nat) : Clean (cs.take n) :=
+  fun c hc => h c (List.mem_of_mem_take hc)
+
+theorem clean_drop {cs : List Str} (h : Clean cs) (n : Nat) : Clean (cs.drop n) :=
+  fun c hc => h c (List.mem_of_mem_drop hc)
+
+theorem foldl_step_clean (cs s : List Str) (h : Clean cs) :
+    cs.foldl step (some s) = some (s ++ cs) := by
+  induction cs generalizing s with
+  | nil => simp
+  | cons c cs ih =>
+    rw [clean_cons] at h
+    obtain ⟨⟨h1, h2, h3, _⟩, hcs⟩ := h
+    simp [step, h1, h2, h3, ih _ hcs]
+
+theorem resolve_clean (cs : List Str) (h : Clean cs) : resolve cs = some cs := by
+  simpa [resolve] using foldl_step_clean cs [] h
+
+theorem foldl_step_result_clean (cs s r : List Str) (hs : Clean s) (hcs : ∀ c ∈ cs, '/' ∉ c)
+    (h : cs.foldl step (some s) = some r) : Clean r := by
+  induction cs generalizing s with
+  | nil => simp at h; subst h; exact hs
+  | cons c cs ih =>
+    rw [List.foldl_cons] at h
+    have hcs' : ∀ c ∈ cs, '/' ∉ c := fun x hx => hcs x (List.mem_cons_of_mem _ hx)
+    by_cases h1 : c = [] ∨ c = dot
+    · simp only [step, h1, if_true] at h
+      exact ih s hs hcs' h
+    · by_cases h3 : c = dotdot
+      · subst h3
+        have e1 : ¬ (dotdot = [] ∨ dotdot = dot) := by decide
+        by_cases h4 : s = []
+        · simp [step, e1, h4, foldl_step_none] at h
+        · simp only [step, e1, h4, if_true, if_false] at h
+          exact ih _ (clean_dropLast hs) hcs' h
+      · simp only [step, h1, h3, if_false] at h
+        refine ih _ ?_ hcs' h
+        rw [clean_append]
+        refine ⟨hs, ?_⟩
+        rw [clean_cons]
+        simp only [not_or] at h1
+        exact ⟨⟨h1.1, h1.2, h3, hcs c (by simp)⟩, clean_nil⟩
+
+theorem resolve_result_clean (p : Str) (r : List Str) (h : resolve (splitSlash p) = some r) :
+    Clean r :=
+  foldl_step_result_clean _ [] r clean_nil (not_mem_of_mem_splitOn '/' p) h
+
+/-! ### the fast path of normpath -/
+
+theorem foldl_step_nodots (cs s : List Str) (h : cs.any isDots = false) :
+    cs.foldl step (some s) = some (s ++ cs.filter (fun c => c ≠ [])) := by
+  induction cs generalizing s with
+  | nil => simp
+  | cons c cs ih =>
+    simp only [List.any_cons, Bool.or_eq_false_iff] at h
+    obtain ⟨hc, hcs⟩ := h
+    have h2 : c ≠ dot ∧ c ≠ dotdot := by
+      simpa [isDots, dot, dotdot] using hc
+    rw [List.foldl_cons]
+    by_cases h1 : c = []
+    · subst h1; simp [step, ih _ hcs]
+    · simp [step, h1, h2.1, h2.2, ih _ hcs]
+
+theorem filter_ne_nil_eq_nil_of_go (l : List Str) (hl : l ≠ [])
+    (hgo : hasInteriorEmpty.go l = false) (hf : l.filter (fun c => c ≠ []) = []) : l = [[]] := by
+  match l, hl with
+  | [y], _ => simpa using hf
+  | c :: d :: rest, _ =>
+    simp only [hasInteriorEmpty.go, Bool.or_eq_false_iff, beq_eq_false_iff_ne] at hgo
+    simp [hgo.1] at hf
+
+theorem rstrip_join_filter (l : List Str) (hl : l ≠ [])
+    (hgo : hasInteriorEmpty.go l = false) (hs : ∀ c ∈ l, '/' ∉ c) :
+    rstripSlash (joinWith '/' l) = joinWith '/' (l.filter (fun c => c ≠ [])) := by
+  induction l with
+  | nil => contradiction
+  | cons c rest ih =>
+    cases rest with
+    | nil =>
+      by_cases hc : c = []
+      · subst hc; simp [joinWith, rstripSlash_nil]
+      · simp only [joinWith, ne_eq, hc, not_false_eq_true, decide_true, List.filter_cons_of_pos,
+          List.filter_nil]
+        exact rstripSlash_of_not_ends _ (endsWithSlash_of_not_mem _ (hs c (by simp)))
+    | cons d rest =>
+      simp only [hasInteriorEmpty.go, Bool.or_eq_false_iff, beq_eq_false_iff_ne] at hgo
+      have ih' := ih (by simp) hgo.2 (fun x hx => hs x (List.mem_cons_of_mem _ hx))
+      have hc : c ≠ [] := hgo.1
+      have hfc : (c :: d :: rest).filter (fun c => c ≠ []) =
+          c :: (d :: rest).filter (fun c => c ≠ []) := by simp [hc]
+      rw [hfc, joinWith_cons _ c (d :: rest), joinWith_cons _ c (List.filter _ _),
+        if_neg (by simp), rstripSlash_append, rstripSlash_cons, ih']
+      have hjn : joinWith '/' ((d :: rest).filter (fun c => c ≠ [])) = [] ↔
+          (d :: rest).filter (fun c => c ≠ []) = [] :=
+        joinWith_eq_nil_iff _ _ (fun x hx => by simpa using (List.mem_filter.1 hx).2)
+      generalize (d :: rest).filter (fun c => c ≠ []) = F at *
+      by_cases hF : F = []
+      · subst hF
+        simp only [joinWith, if_true]
+        exact rstripSlash_of_not_ends _ (endsWithSlash_of_not_mem _ (hs c (by simp)))
+      · have : joinWith '/' F ≠ [] := fun e => hF (hjn.1 e)
+        simp [this, hF]
+
+theorem fastpath_list (cs : List Str) (hne : cs ≠ []) (hs : ∀ c ∈ cs, '/' ∉ c)
+    (hie : hasInteriorEmpty cs = false)
+    (h1 : joinWith '/' cs ≠ []) (h2 : joinWith '/' cs ≠ ['/']) :
+    (if startsWithSlash (joinWith '/' cs) then ['/'] else []) ++
+        joinWith '/' (cs.filter (fun c => c ≠ [])) = rstripSlash (joinWith '/' cs) := by
+  match cs, hne with
+  | [x], _ =>
+    have hx : x ≠ [] := by simpa [joinWith] using h1
+    have hsx : '/' ∉ x := hs x (by simp)
+    simp [joinWith, hx, startsWithSlash_of_not_mem _ hsx,
+      rstripSlash_of_not_ends _ (endsWithSlash_of_not_mem _ hsx)]
+  | x :: d :: rest, _ =>
+    have hsx : '/' ∉ x := hs x (by simp)
+    have hgo : hasInteriorEmpty.go (d :: rest) = false := hie
+    have hs' : ∀ c ∈ d :: rest, '/' ∉ c := fun c hc => hs c (List.mem_cons_of_mem _ hc)
+    by_cases hx : x = []
+    · subst hx
+      have hA := rstrip_join_filter (d :: rest) (by simp) hgo hs'
+      have hF : (d :: rest).filter (fun c => c ≠ []) ≠ [] := by
+        intro hf
+        have := filter_ne_nil_eq_nil_of_go _ (by simp) hgo hf
+        rw [this] at h2
+        simp [joinWith] at h2
+      have hjn : joinWith '/' ((d :: rest).filter (fun c => c ≠ [])) ≠ [] := fun e =>
+        hF ((joinWith_eq_nil_iff _ _
+          (fun x hx => by simpa using (List.mem_filter.1 hx).2)).1 e)
+      rw [joinWith.eq_def]
+      simp only [List.nil_append]
+      rw [rstripSlash_cons, hA]
+      simpa [startsWithSlash_cons] using hjn
+    · have hgo' : hasInteriorEmpty.go (x :: d :: rest) = false := by
+        simp [hasInteriorEmpty.go, hx, hgo]
+      rw [rstrip_join_filter _ (by simp) hgo' hs]
+      have : startsWithSlash (joinWith '/' (x :: d :: rest)) = false := by
+        rw [joinWith, startsWithSlash_append _ _ hx]
+        exact startsWithSlash_of_not_mem _ hsx
+      simp [this]
+
+theorem fastpath_spec (p : Str) (h1 : p ≠ []) (h2 : p ≠ ['/'])
+    (h : requiresNormalization p = false) : specNorm p = .ok (rstripSlash p) := by
+  simp only [requiresNormalization, Bool.or_eq_false_iff] at h
+  obtain ⟨⟨hd, _⟩, hie⟩ := h
+  have hj : joinWith '/' (splitOn '/' p) = p := joinWith_splitOn '/' p
+  have hs := not_mem_of_mem_splitOn '/' p
+  have hne := splitOn_ne_nil '/' p
+  unfold specNorm
+  simp only [splitSlash, joinSlash] at *
+  rw [resolve, foldl_step_nodots _ _ hd]
+  simp only [List.nil_append]
+  have := fastpath_list (splitOn '/' p) hne hs hie (by rw [hj]; exact h1) (by rw [hj]; exact h2)
+  rw [hj] at this
+  rw [this]
+
+/-! ### normpath = specNorm -/
+
+theorem normpath_eq_specNorm (p : Str) : normpath p = specNorm p := by
+  by_cases h1 : p = []
+  · subst h1; decide
+  by_cases h2 : p = ['/']
+  · subst h2; decide
+  unfold normpath
+  have h12 : (p == [] || p == ['/']) = false := by simp [h1, h2]
+  rw [h12]
+  simp only [Bool.false_eq_true, if_false]
+  by_cases h3 : requiresNormalization p = false
+  · rw [h3]; simp only [Bool.not_false, if_true]
+    exact (fastpath_spec p h1 h2 h3).symm
+  · simp only [Bool.not_eq_false] at h3
+    rw [h3]
+    simp only [Bool.not_true, Bool.false_eq_true, if_false]
+    rw [normLoop_eq_resolve]
+    unfold specNorm
+    cases resolve (splitSlash p) <;> rfl
+
+/-- paths built from clean components -/
+def mkp (a : Bool) (cs : List Str) : Str := (if a then ['/'] else []) ++ joinWith '/' cs
+
+theorem clean_not_mem {cs : List Str} (h : Clean cs) : ∀ c ∈ cs, '/' ∉ c :=
+  fun c hc => (h c hc).2.2.2
+
+theorem clean_ne_nil {cs : List Str} (h : Clean cs) : ∀ c ∈ cs, c ≠ [] :=
+  fun c hc => (h c hc).1
+
+theorem join_clean_eq_nil_iff {cs : List Str} (h : Clean cs) : joinWith '/' cs = [] ↔ cs = [] :=
+  joinWith_eq_nil_iff _ _ (clean_ne_nil h)
+
+theorem splitOn_join_clean {cs : List Str} (h : Clean cs) (hne : cs ≠ []) :
+    splitOn '/' (joinWith '/' cs) = cs :=
+  splitOn_joinWith _ _ hne (clean_not_mem h)
+
+theorem startsWithSlash_join_clean {cs : List Str} (h : Clean cs) :
+    startsWithSlash (joinWith '/' cs) = false := by
+  cases cs with
+  | nil => rfl
+  | cons c rest =>
+    rw [joinWith_cons]
+    have hc := (clean_cons.1 h).1
+    split
+    · exact startsWithSlash_of_not_mem _ hc.2.2.2
+    · rw [startsWithSlash_append _ _ hc.1]; exact startsWithSlash_of_not_mem _ hc.2.2.2
+
+theorem endsWithSlash_join_clean {cs : List Str} (h : Clean cs) :
+    endsWithSlash (joinWith '/' cs) = false := by
+  induction cs with
+  | nil => rfl
+  | cons c rest ih =>
+    rw [joinWith_cons]
+    rw [clean_cons] at h
+    split
+    · exact endsWithSlash_of_not_mem _ h.1.2.2.2
+    · next hr =>
+      have : joinWith '/' rest ≠ [] := fun e => hr ((join_clean_eq_nil_iff h.2).1 e)
+      rw [endsWithSlash_append _ _ (by simp), show '/' :: joinWith '/' rest = ['/'] ++ joinWith '/' rest from rfl,
+        endsWithSlash_append _ _ this]
+      exact ih h.2
+
+theorem startsWithSlash_mkp {a : Bool} {cs : List Str} (h : Clean cs) :
+    startsWithSlash (mkp a cs) = a := by
+  cases a
+  · simpa [mkp] using startsWithSlash_join_clean h
+  · simp [mkp, startsWithSlash_cons]
+
+theorem lstripSlash_mkp {a : Bool} {cs : List Str} (h : Clean cs) :
+    lstripSlash (mkp a cs) = joinWith '/' cs := by
+  have := lstripSlash_of_not_starts _ (startsWithSlash_join_clean h)
+  cases a
+  · simpa [mkp] using this
+  · simpa [mkp, lstripSlash] using this
+
+theorem mkp_eq_nil_iff {a : Bool} {cs : List Str} (h : Clean cs) :
+    mkp a cs = [] ↔ a = false ∧ cs = [] := by
+  cases a <;> simp [mkp, join_clean_eq_nil_iff h]
+
+theorem mkp_eq_slash_iff {a : Bool} {cs : List Str} (h : Clean cs) :
+    mkp a cs = ['/'] ↔ a = true ∧ cs = [] := by
+  cases a
+  · simp only [mkp, Bool.false_eq_true, if_false, List.nil_append, false_and, iff_false]
+    intro e
+    have := startsWithSlash_join_clean h
+    rw [e] at this
+    exact absurd this (by decide)
+  · simp [mkp, join_clean_eq_nil_iff h]
+
+theorem endsWithSlash_mkp {a : Bool} {cs : List Str} (h : Clean cs) (hne : cs ≠ []) :
+    endsWithSlash (mkp a cs) = false := by
+  have : joinWith '/' cs ≠ [] := fun e => hne ((join_clean_eq_nil_iff h).1 e)
+  rw [mkp, endsWithSlash_append _ _ this]
+  exact endsWithSlash_join_clean h
+
+theorem rstripSlash_mkp {a : Bool} {cs : List Str} (h : Clean cs) (hne : cs ≠ []) :
+    rstripSlash (mkp a cs) = mkp a cs :=
+  rstripSlash_of_not_ends _ (endsWithSlash_mkp h hne)
+
+theorem splitOn_mkp {a : Bool} {cs : List Str} (h : Clean cs) :
+    splitOn '/' (mkp a cs) = (if a then [[]] else []) ++ (if cs = [] then [[]] else cs) := by
+  have : splitOn '/' (joinWith '/' cs) = if cs = [] then [[]] else cs := by
+    split
+    · next e => subst e; rfl
+    · next e => exact splitOn_join_clean h e
+  cases a
+  · simpa [mkp] using this
+  · simpa [mkp, splitOn_cons_sep] using this
+
+theorem resolve_splitOn_mkp {a : Bool} {cs : List Str} (h : Clean cs) :
+    resolve (splitOn '/' (mkp a cs)) = some cs := by
+  rw [splitOn_mkp h]
+  by_cases hc : cs = []
+  · subst hc; cases a <;> decide
+  · have := resolve_clean cs h
+    cases a
+    · simpa [hc] using this
+    · simp only [if_true, if_neg hc, List.cons_append, List.nil_append, resolve, List.foldl_cons]
+      simpa [step, resolve] using this
+
+theorem normpath_mkp {a : Bool} {cs : List Str} (h : Clean cs) :
+    normpath (mkp a cs) = .ok (mkp a cs) := by
+  rw [normpath_eq_specNorm, specNorm]
+  simp only [splitSlash, joinSlash]
+  rw [resolve_splitOn_mkp h, startsWithSlash_mkp h]
+  rfl
+
+theorem normpath_ok_clean (p q : Str) (h : normpath p = .ok q) :
+    ∃ cs, Clean cs ∧ q = mkp (startsWithSlash p) cs := by
+  rw [normpath_eq_specNorm, specNorm] at h
+  cases hr : resolve (splitSlash p) with
+  | none => rw [hr] at h; cases h
+  | some cs =>
+    rw [hr] at h
+    simp only [Res.ok.injEq] at h
+    exact ⟨cs, resolve_result_clean p cs hr, h.symm⟩
+
+/-! ### Res monad -/
+
+theorem bind_ok {α β} (x : α) (f : α → Res β) : (Res.ok x >>= f) = f x := rfl
+theorem bind_err {α β} (e : Err) (f : α → Res β) : (Res.err e >>= f) = Res.err e := rfl
+theorem pure_eq {α} (x : α) : (pure x : Res α) = Res.ok x := rfl
+
+theorem stripSlash_mkp {a : Bool} {cs : List Str} (h : Clean cs) :
+    stripSlash (mkp a cs) = joinWith '/' cs := by
+  rw [stripSlash, lstripSlash_mkp h]
+  exact rstripSlash_of_not_ends _ (endsWithSlash_join_clean h)
+
+/-! ### split -/
+
+theorem rsplit1_go_skip (c : Char) (u rest acc : Str) (h : c ∉ u) :
+    rsplit1.go c (u ++ rest) acc = rsplit1.go c rest (u.reverse ++ acc) := by
+  induction u generalizing acc with
+  | nil => rfl
+  | cons x xs ih =>
+    simp only [List.mem_cons, not_or] at h
+    have hx : x ≠ c := fun e => h.1 e.symm
+    simp [rsplit1.go, hx, ih _ h.2]
+
+theorem rsplit1_none (c : Char) (s : Str) (h : c ∉ s) : rsplit1 c s = none := by
+  have := rsplit1_go_skip c s.reverse [] [] (by simpa using h)
+  simpa [rsplit1, rsplit1.go] using this
+
+theorem rsplit1_some (c : Char) (a b : Str) (h : c ∉ b) :
+    rsplit1 c (a ++ c :: b) = some (a, b) := by
+  have := rsplit1_go_skip c b.reverse (c :: a.reverse) [] (by simpa using h)
+  simp only [rsplit1, List.reverse_append, List.reverse_cons, List.append_assoc,
+    List.singleton_append]
+  simpa [rsplit1.go] using this
+
+theorem mkp_snoc {a : Bool} {cs : List Str} (c : Str) (hne : cs ≠ []) :
+    mkp a (cs ++ [c]) = mkp a cs ++ '/' :: c := by
+  simp [mkp, joinWith_append _ _ _ hne, joinWith]
+
+theorem mkp_ne_nil {a : Bool} {cs : List Str} (h : Clean cs) (hne : cs ≠ []) : mkp a cs ≠ [] := by
+  intro e; exact hne ((mkp_eq_nil_iff h).1 e).2
+
+theorem split_mkp_snoc (a : Bool) (cs : List Str) (c : Str) (h : Clean (cs ++ [c])) :
+    split (mkp a (cs ++ [c])) = (mkp a cs, c) := by
+  rw [clean_append, clean_cons] at h
+  obtain ⟨hcs, hc, -⟩ := h
+  by_cases hne : cs = []
+  · subst hne
+    cases a
+    · simp [mkp, joinWith, split, rsplit1_none _ _ hc.2.2.2]
+    · have : mkp true ([] ++ [c]) = [] ++ '/' :: c := rfl
+      rw [this, split, rsplit1_some _ _ _ hc.2.2.2]
+      rfl
+  · rw [mkp_snoc c hne, split, rsplit1_some _ _ _ hc.2.2.2]
+    have := mkp_ne_nil (a := a) hcs hne
+    simp [this]
+
+theorem split_mkp_nil (a : Bool) : split (mkp a []) = (mkp a [], []) := by
+  cases a <;> decide
+
+theorem list_nil_or_snoc {α} (l : List α) : l = [] ∨ ∃ i x, l = i ++ [x] := by
+  rcases List.eq_nil_or_concat l with h | ⟨i, x, h⟩
+  · exact Or.inl h
+  · exact Or.inr ⟨i, x, by simpa using h⟩
+
+theorem combine_split_mkp (a : Bool) (cs : List Str) (h : Clean cs) :
+    combine (split (mkp a cs)).1 (split (mkp a cs)).2 = mkp a cs := by
+  rcases list_nil_or_snoc cs with rfl | ⟨i, c, rfl⟩
+  · cases a <;> decide
+  · rw [split_mkp_snoc a i c h]
+    rw [clean_append, clean_cons] at h
+    obtain ⟨hi, hc, -⟩ := h
+    have hlc : lstripSlash c = c :=
+      lstripSlash_of_not_starts _ (startsWithSlash_of_not_mem _ hc.2.2.2)
+    by_cases hne : i = []
+    · subst hne
+      cases a
+      · simp [combine, mkp, joinWith]
+      · simp only [combine, hlc]
+        rfl
+    · have h1 := mkp_ne_nil (a := a) hi hne
+      simp only [combine, hlc, rstripSlash_mkp hi hne, mkp_snoc c hne]
+      simp [h1]
+
+theorem join_go_cons (p : Str) (ps : List Str) (ab : Bool) (rel : List Str) (hp : p ≠ []) :
+    join.go (p :: ps) ab rel =
+      if startsWithSlash p then join.go ps true [p] else join.go ps ab (p :: rel) := by
+  cases p with
+  | nil => contradiction
+  | cons x xs =>
+    rw [join.go, startsWithSlash_cons]
+    by_cases hx : x = '/' <;> simp [hx]
+
+theorem join_go_nil (ab : Bool) (rel : List Str) : join.go [] ab rel = (ab, rel.reverse) := by
+  rw [join.go]
+
+theorem join_go_cons_nil (ps : List Str) (ab : Bool) (rel : List Str) :
+    join.go ([] :: ps) ab rel = join.go ps ab rel := by
+  rw [join.go]
+
+theorem join_split_mkp (a : Bool) (cs : List Str) (h : Clean cs) :
+    join [(split (mkp a cs)).1, (split (mkp a cs)).2] = .ok (mkp a cs) := by
+  rcases list_nil_or_snoc cs with rfl | ⟨i, c, rfl⟩
+  · cases a <;> decide
+  · rw [split_mkp_snoc a i c h]
+    have hfull := h
+    rw [clean_append, clean_cons] at h
+    obtain ⟨hi, hc, -⟩ := h
+    have hsc : startsWithSlash c = false := startsWithSlash_of_not_mem _ hc.2.2.2
+    simp only
+    by_cases hne : i = []
+    · subst hne
+      cases a
+      · have e : mkp false [] = [] := rfl
+        have e2 : mkp false ([] ++ [c]) = c := by simp [mkp, joinWith]
+        rw [e, e2, join]
+        rw [join_go_cons_nil, join_go_cons _ _ _ _ hc.1, hsc]
+        simp only [Bool.false_eq_true, if_false, join_go_nil, List.reverse_cons, List.reverse_nil,
+          List.nil_append, joinSlash, joinWith]
+        have := normpath_mkp (a := false) hfull
+        rw [e2] at this
+        rw [this]; rfl
+      · have e : mkp true [] = ['/'] := rfl
+        have e2 : mkp true ([] ++ [c]) = '/' :: c := by simp [mkp, joinWith]
+        rw [e, e2, join]
+        rw [join_go_cons _ _ _ _ (by simp), join_go_cons _ _ _ _ hc.1, hsc]
+        simp only [Bool.false_eq_true, join_go_nil, startsWithSlash_cons, decide_true, List.reverse_cons, List.reverse_nil,
+          List.nil_append, joinSlash, joinWith, List.cons_append, ↓reduceIte]
+        have : normpath ('/' :: '/' :: c) = .ok ('/' :: c) := by
+          rw [normpath_eq_specNorm, specNorm]
+          simp only [splitSlash, splitOn_cons_sep, splitOn_of_not_mem _ _ hc.2.2.2]
+          have hr : resolve [[], [], c] = some [c] := by
+            simp [resolve, step, hc.1, hc.2.1, hc.2.2.1]
+          rw [hr]; rfl
+        rw [this]; rfl
+    · have h1 := mkp_ne_nil (a := a) hi hne
+      rw [join, join_go_cons _ _ _ _ h1, startsWithSlash_mkp hi]
+      have hn := normpath_mkp (a := a) hfull
+      rw [mkp_snoc c hne] at hn ⊢
+      cases a
+      · simp only [Bool.false_eq_true, if_false]
+        rw [join_go_cons _ _ _ _ hc.1, hsc]
+        simp only [Bool.false_eq_true, if_false, join_go_nil, List.reverse_cons, List.reverse_nil,
+          List.nil_append, joinSlash, joinWith, List.cons_append]
+        rw [hn]; rfl
+      · simp only [if_true]
+        rw [join_go_cons _ _ _ _ hc.1, hsc]
+        simp only [Bool.false_eq_true, if_false, join_go_nil, List.reverse_cons, List.reverse_nil,
+          List.nil_append, joinSlash, joinWith, List.cons_append]
+        rw [hn, bind_ok, pure_eq]
+        simp only [if_true, abspath]
+        rw [← mkp_snoc c hne, startsWithSlash_mkp hfull]
+        rfl
+
+/-! ### isbase -/
+
+/-- every component followed by a slash -/
+def dirs : List Str → Str
+  | [] => []
+  | c :: cs => c ++ '/' :: dirs cs
+
+theorem dirs_append (as bs : List Str) : dirs (as ++ bs) = dirs as ++ dirs bs := by
+  induction as with
+  | nil => rfl
+  | cons a as ih => simp [dirs, ih]
+
+theorem join_append_slash (cs : List Str) (hne : cs ≠ []) :
+    joinWith '/' cs ++ ['/'] = dirs cs := by
+  induction cs with
+  | nil => contradiction
+  | cons c rest ih =>
+    cases rest with
+    | nil => simp [joinWith, dirs]
+    | cons d rest =>
+      have := ih (by simp)
+      simp only [joinWith, dirs, List.append_assoc, List.cons_append] at this ⊢
+      rw [this]
+
+theorem join_snoc (cs : List Str) (c : Str) : joinWith '/' (cs ++ [c]) = dirs cs ++ c := by
+  by_cases h : cs = []
+  · subst h; simp [joinWith, dirs]
+  · rw [joinWith_append _ _ _ h (by simp), ← join_append_slash cs h]; simp [joinWith]
+
+theorem startsWith_iff_prefix (a b : Str) : startsWith a b = true ↔ b <+: a := by
+  induction a generalizing b with
+  | nil => cases b <;> simp [startsWith]
+  | cons x xs ih =>
+    cases b with
+    | nil => simp [startsWith]
+    | cons y ys =>
+      simp only [startsWith, Bool.and_eq_true, beq_iff_eq, ih, List.cons_prefix_cons]
+      constructor
+      · rintro ⟨rfl, h⟩; exact ⟨rfl, h⟩
+      · rintro ⟨rfl, h⟩; exact ⟨rfl, h⟩
+
+theorem append_sep_inj (c : Char) (a b u v : Str) (ha : c ∉ a) (hb : c ∉ b)
+    (h : a ++ c :: u = b ++ c :: v) : a = b ∧ u = v := by
+  have h' := congrArg (splitOn c) h
+  rw [splitOn_append_sep c a u ha, splitOn_append_sep c b v hb] at h'
+  have hab : a = b := (List.cons.inj h').1
+  subst hab
+  exact ⟨rfl, by simpa using h⟩
+
+theorem dirs_prefix_iff {as bs : List Str} (ha : Clean as) (hb : Clean bs) :
+    dirs as <+: dirs bs ↔ as <+: bs := by
+  constructor
+  · intro h
+    induction as generalizing bs with
+    | nil => exact List.nil_prefix
+    | cons a as ih =>
+      rw [clean_cons] at ha
+      cases bs with
+      | nil =>
+        obtain ⟨t, ht⟩ := h
+        simp [dirs] at ht
+      | cons b bs =>
+        rw [clean_cons] at hb
+        obtain ⟨t, ht⟩ := h
+        simp only [dirs, List.append_assoc, List.cons_append] at ht
+        obtain ⟨rfl, h2⟩ := append_sep_inj '/' a b _ _ ha.1.2.2.2 hb.1.2.2.2 ht
+        rw [List.cons_prefix_cons]
+        exact ⟨rfl, ih ha.2 hb.2 ⟨t, h2⟩⟩
+  · rintro ⟨t, rfl⟩
+    rw [dirs_append]
+    exact List.prefix_append _ _
+
+theorem abspath_mkp {a : Bool} {cs : List Str} (h : Clean cs) : abspath (mkp a cs) = mkp true cs := by
+  unfold abspath
+  rw [startsWithSlash_mkp h]
+  cases a <;> simp [mkp]
+
+theorem forcedir_mkp_true {cs : List Str} (h : Clean cs) :
+    forcedir (mkp true cs) = '/' :: dirs cs := by
+  by_cases hne : cs = []
+  · subst hne; rfl
+  · rw [forcedir, endsWithSlash_mkp h hne]
+    simp only [Bool.false_eq_true, if_false, mkp, if_true, List.cons_append, List.nil_append]
+    rw [join_append_slash cs hne]
+
+theorem isbase_mkp_iff (a b : Bool) (as bs : List Str) (ha : Clean as) (hb : Clean bs) :
+    isbase (mkp a as) (mkp b bs) = true ↔ as <+: bs := by
+  rw [isbase, abspath_mkp ha, abspath_mkp hb, forcedir_mkp_true ha, forcedir_mkp_true hb,
+    startsWith_iff_prefix, List.cons_prefix_cons]
+  simp [dirs_prefix_iff ha hb]
+
+/-! ### isparent / frombase -/
+
+theorem isparent_core_iff (l1 l2 : List Str) :
+    (if l1.length > l2.length then false else zipAllEq l1 l2) = true ↔ l1 <+: l2 := by
+  induction l1 generalizing l2 with
+  | nil => simp [zipAllEq]
+  | cons x xs ih =>
+    cases l2 with
+    | nil => simp
+    | cons y ys =>
+      have := ih ys
+      simp only [List.length_cons, gt_iff_lt, Nat.add_lt_add_iff_right, zipAllEq,
+        List.cons_prefix_cons] at this ⊢
+      rw [← this]
+      by_cases hl : ys.length < xs.length
+      · simp [hl]
+      · simp [hl]
+
+theorem dropTrailingEmpty_snoc (l : List Str) (x : Str) (hx : x ≠ []) :
+    dropTrailingEmpty (l ++ [x]) = l ++ [x] := by
+  simp [dropTrailingEmpty, hx]
+
+theorem dropTrailingEmpty_of_ne_nil (l : List Str) (hl : l ≠ []) (h : ∀ x ∈ l, x ≠ []) :
+    dropTrailingEmpty l = l := by
+  rcases list_nil_or_snoc l with rfl | ⟨i, x, rfl⟩
+  · contradiction
+  · exact dropTrailingEmpty_snoc i x (h x (by simp))
+
+theorem isparent_mkp_iff (a : Bool) (as bs : List Str) (ha : Clean as) (hb : Clean bs) :
+    isparent (mkp a as) (mkp a bs) = true ↔ as <+: bs := by
+  unfold isparent
+  simp only [splitSlash]
+  rw [isparent_core_iff, splitOn_mkp ha, splitOn_mkp hb]
+  by_cases hne : as = []
+  · subst hne
+    have : dropTrailingEmpty ((if a then [[]] else []) ++ (if ([] : List Str) = [] then [[]] else [])) = [] := by
+      cases a <;> decide
+    rw [this]
+    simp
+  · rw [if_neg hne]
+    have hd : dropTrailingEmpty ((if a then [[]] else []) ++ as) = (if a then [[]] else []) ++ as := by
+      rcases list_nil_or_snoc as with rfl | ⟨i, x, rfl⟩
+      · contradiction
+      · rw [← List.append_assoc]
+        exact dropTrailingEmpty_snoc _ x (clean_ne_nil ha x (by simp))
+    rw [hd, List.prefix_append_right_inj]
+    by_cases hbn : bs = []
+    · subst hbn
+      simp only [if_true, List.prefix_nil, hne, iff_false]
+      cases as with
+      | nil => contradiction
+      | cons x xs =>
+        rw [List.cons_prefix_cons]
+        rintro ⟨rfl, -⟩
+        exact clean_ne_nil ha [] (by simp) rfl
+    · rw [if_neg hbn]
+
+theorem mkp_prefix {a : Bool} {as bs : List Str} (hp : as <+: bs) : mkp a as <+: mkp a bs := by
+  obtain ⟨t, rfl⟩ := hp
+  by_cases h1 : as = []
+  · subst h1; simp [mkp, joinWith]
+  by_cases h2 : t = []
+  · subst h2; simp
+  · rw [mkp, mkp, joinWith_append _ _ _ h1 h2, ← List.append_assoc]
+    exact List.prefix_append _ _
+
+/-! ### issamedir -/
+
+theorem join_clean_inj {as bs : List Str} (ha : Clean as) (hb : Clean bs)
+    (h : joinWith '/' as = joinWith '/' bs) : as = bs := by
+  by_cases h1 : as = []
+  · subst h1
+    exact ((join_clean_eq_nil_iff hb).1 h.symm).symm
+  · have h2 : bs ≠ [] := by
+      intro e; subst e
+      exact h1 ((join_clean_eq_nil_iff ha).1 h)
+    rw [← splitOn_join_clean ha h1, ← splitOn_join_clean hb h2, h]
+
+theorem mkp_inj {a : Bool} {as bs : List Str} (ha : Clean as) (hb : Clean bs)
+    (h : mkp a as = mkp a bs) : as = bs :=
+  join_clean_inj ha hb (List.append_cancel_left h)
+
+theorem issamedir_mkp (a : Bool) (as bs : List Str) (ha : Clean as) (hb : Clean bs)
+    (hna : as ≠ []) (hnb : bs ≠ []) :
+    issamedir (mkp a as) (mkp a bs) = .ok (decide (as.dropLast = bs.dropLast)) := by
+  unfold issamedir
+  rw [normpath_mkp ha, normpath_mkp hb, bind_ok, bind_ok, pure_eq]
+  rcases list_nil_or_snoc as with rfl | ⟨i, x, rfl⟩
+  · contradiction
+  rcases list_nil_or_snoc bs with rfl | ⟨j, y, rfl⟩
+  · contradiction
+  simp only [dirname, split_mkp_snoc a i x ha, split_mkp_snoc a j y hb, List.dropLast_concat]
+  congr 1
+  rw [clean_append] at ha hb
+  by_cases hij : i = j
+  · subst hij; simp
+  · have : mkp a i ≠ mkp a j := fun e => hij (mkp_inj ha.1 hb.1 e)
+    simp [hij, this]
+
+/-! ### relativefrom -/
+
+theorem commonLen_le_left (as bs : List Str) : commonLen as bs ≤ as.length := by
+  induction as generalizing bs with
+  | nil => simp [commonLen]
+  | cons a as ih =>
+    cases bs with
+    | nil => simp [commonLen]
+    | cons b bs =>
+      simp only [commonLen]
+      split
+      · have := ih bs; simp; omega
+      · simp
+
+theorem take_commonLen (as bs : List Str) :
+    as.take (commonLen as bs) = bs.take (commonLen as bs) := by
+  induction as generalizing bs with
+  | nil => simp [commonLen]
+  | cons a as ih =>
+    cases bs with
+    | nil => simp [commonLen]
+    | cons b bs =>
+      simp only [commonLen]
+      split
+      · next h => simp at h; subst h; simp [ih bs]
+      · simp
+
+theorem foldl_step_dotdots (n : Nat) (s : List Str) (h : n ≤ s.length) :
+    (List.replicate n dotdot).foldl step (some s) = some (s.take (s.length - n)) := by
+  induction n generalizing s with
+  | zero => simp
+  | succ n ih =>
+    have hs : s ≠ [] := by intro e; subst e; simp at h
+    have e1 : ¬ (dotdot = [] ∨ dotdot = dot) := by decide
+    rw [List.replicate_succ, List.foldl_cons]
+    simp only [step, e1, if_false, if_true, hs]
+    rw [ih _ (by simp; omega), List.dropLast_eq_take, List.take_take]
+    simp only [List.length_take]
+    congr 2
+    omega
+
+theorem relativefrom_core (as bs : List Str) (ha : Clean as) (hb : Clean bs) :
+    resolve (as ++ splitOn '/' (joinWith '/'
+      (List.replicate (as.length - commonLen as bs) dotdot ++ bs.drop (commonLen as bs)))) =
+      some bs := by
+  have hk := commonLen_le_left as bs
+  have htk := take_commonLen as bs
+  generalize commonLen as bs = k at *
+  by_cases hL : List.replicate (as.length - k) dotdot ++ bs.drop k = []
+  · rw [hL]
+    simp only [List.append_eq_nil_iff, List.replicate_eq_nil_iff, List.drop_eq_nil_iff] at hL
+    have e1 : as.take k = as := List.take_of_length_le (by omega)
+    have e2 : bs.take k = bs := List.take_of_length_le hL.2
+    have : as = bs := by rw [← e1, ← e2, htk]
+    subst this
+    simp only [joinWith, splitOn, resolve, List.foldl_append, foldl_step_clean _ _ ha,
+      List.nil_append, List.foldl_cons, List.foldl_nil]
+    simp [step]
+  · rw [splitOn_joinWith _ _ hL]
+    · rw [resolve, List.foldl_append, foldl_step_clean _ _ ha, List.nil_append, List.foldl_append,
+        foldl_step_dotdots _ _ (by omega), foldl_step_clean _ _ (clean_drop hb k)]
+      have : as.length - (as.length - k) = k := by omega
+      rw [this, htk, List.take_append_drop]
+    · intro x hx
+      rw [List.mem_append] at hx
+      rcases hx with hx | hx
+      · rw [List.mem_replicate] at hx
+        rw [hx.2]; decide
+      · exact clean_not_mem (clean_drop hb k) x hx
+
+/-! ### recursepath -/
+
+theorem findSlash_go (c rest : Str) (i : Nat) (h : '/' ∉ c) :
+    findSlashFrom.go (c ++ '/' :: rest) i = some (i + c.length) := by
+  induction c generalizing i with
+  | nil => simp [findSlashFrom.go]
+  | cons x xs ih =>
+    simp only [List.mem_cons, not_or] at h
+    have hx : x ≠ '/' := fun e => h.1 e.symm
+    simp only [List.cons_append, findSlashFrom.go, hx, if_false, ih _ h.2, List.length_cons]
+    congr 1; omega
+
+theorem findSlashFrom_at (pfx c rest : Str) (h : '/' ∉ c) :
+    findSlashFrom (pfx ++ (c ++ '/' :: rest)) pfx.length = some (pfx.length + c.length) := by
+  rw [findSlashFrom, List.drop_left, findSlash_go _ _ _ h]
+
+/-- the paths `recurseLoop` emits, starting after the prefix `pfx` -/
+def prefs (pfx : Str) : List Str → List Str
+  | [] => []
+  | c :: t => (pfx ++ c) :: prefs (pfx ++ c ++ ['/']) t
+
+theorem recurseLoop_eq (todo : List Str) (pfx : Str) (fuel : Nat) (acc : List Str)
+    (h : Clean todo) (hf : todo.length ≤ fuel) :
+    recurseLoop (pfx ++ dirs todo) fuel pfx.length acc = acc.reverse ++ prefs pfx todo := by
+  induction todo generalizing pfx fuel acc with
+  | nil =>
+    cases fuel with
+    | zero => simp [recurseLoop, prefs]
+    | succ f => simp [recurseLoop, prefs, dirs]
+  | cons c t ih =>
+    rw [clean_cons] at h
+    cases fuel with
+    | zero => simp at hf
+    | succ f =>
+      rw [recurseLoop]
+      have hlt : pfx.length < (pfx ++ dirs (c :: t)).length := by
+        simp [dirs]; omega
+      rw [if_pos hlt]
+      simp only [dirs]
+      rw [findSlashFrom_at _ _ _ h.1.2.2.2]
+      simp only
+      have e1 : (pfx ++ (c ++ '/' :: dirs t)).take (pfx.length + c.length) = pfx ++ c := by
+        rw [← List.append_assoc, ← List.length_append, List.take_left]
+      have e2 : pfx ++ (c ++ '/' :: dirs t) = (pfx ++ c ++ ['/']) ++ dirs t := by simp
+      have e3 : pfx.length + c.length + 1 = (pfx ++ c ++ ['/']).length := by simp; omega
+      rw [e1, e2, e3, ih _ _ _ h.2 (by simpa using hf)]
+      simp [prefs]
+
+theorem prefs_eq (done todo : List Str) :
+    prefs ('/' :: dirs done) todo =
+      (List.range todo.length).map (fun i => mkp true (done ++ todo.take (i + 1))) := by
+  induction todo generalizing done with
+  | nil => simp [prefs]
+  | cons c t ih =>
+    have e1 : '/' :: dirs done ++ c = mkp true (done ++ [c]) := by
+      simp [mkp, join_snoc]
+    have e2 : '/' :: dirs done ++ c ++ ['/'] = '/' :: dirs (done ++ [c]) := by
+      simp [dirs_append, dirs]
+    rw [prefs, e2, ih, List.length_cons, List.range_succ_eq_map, List.map_cons, List.map_map, e1]
+    simp
+
+theorem recursepath_mkp (a : Bool) (cs : List Str) (h : Clean cs) :
+    recursepath (mkp a cs) false =
+      .ok ((List.range (cs.length + 1)).map fun i => mkp true (cs.take i)) := by
+  by_cases hne : cs = []
+  · subst hne; cases a <;> rfl
+  · have h1 : mkp a cs ≠ [] := mkp_ne_nil h hne
+    have h2 : mkp a cs ≠ ['/'] := fun e => hne ((mkp_eq_slash_iff h).1 e).2
+    unfold recursepath
+    have h12 : (mkp a cs == [] || mkp a cs == ['/']) = false := by simp [h1, h2]
+    rw [h12]
+    simp only [Bool.false_eq_true, if_false]
+    rw [normpath_mkp h, bind_ok, pure_eq, abspath_mkp h]
+    have e : mkp true cs ++ ['/'] = ['/'] ++ dirs cs := by
+      simp only [mkp, if_true, List.append_assoc, join_append_slash cs hne]
+    rw [e]
+    have := recurseLoop_eq cs ['/'] (List.length (['/'] ++ dirs cs) + 1) [['/']] h
+      (by
+        have : cs.length ≤ (dirs cs).length := by
+          clear e h12 h2 h1 hne h
+          induction cs with
+          | nil => simp
+          | cons c t ih => simp [dirs]; omega
+        simp; omega)
+    simp only [List.length_singleton] at this
+    rw [this]
+    have := prefs_eq [] cs
+    simp only [dirs, List.nil_append] at this
+    rw [this, List.range_succ_eq_map, List.map_cons, List.map_map]
+    simp
+    rfl
+
 end Fs.PathLemmas
